@@ -17,6 +17,7 @@ var gens = map[string]func(props.Ctx) *report.Report{
 	"C03": props.C03,
 	"C12": props.C12,
 	"C15": props.C15,
+	"C18": props.C18,
 	"CALC": props.CalcAll,
 	"HIST": props.HistAll,
 }
